@@ -26,6 +26,16 @@ Types are not inferred from Python.  Per function:
              objects (object loops, see tools/py2lean.py); strings: string constants may be compared for equality
   prelude    (module level) Lean declarations of record types, printed verbatim in the generated file
   bind       an entry may have a third component "partial": the Lean text is Option-valued, none = the expression raises
+Fourth round:
+  num        floats are values of a carrier α with the operations of Artap.Num (see NUM_DOC in tools/py2lean.py);
+             num_lt = the `lt` of the order class for `a < b` on floats
+  knot       name of the definition that closes the recursion of a function compiled in open-recursion form (the
+             self-call is routed through the first parameter by a `calls` entry); recursion budget = first argument
+  iterables  spec type -> (template, element type): what `for item in value` yields (`?` = partial)
+  strdict    dicts with string keys; the value = the document type that the items of a display are converted to
+  int_is_int `int(e)` on an integer is that integer;  numpy_ints: values of type NpInt are numpy integers (`//` by zero
+             is 0, a list may be repeated by them); subscript_assign: handler for `H[:, i] = e`
+  try_dropped  exception class -> reason: handlers that are dropped (impossible in the modelled world)
 """
 
 L = lambda t: ("List", t)
@@ -196,6 +206,18 @@ def _child_ctor(fn, n, env, want):
     if ty != ("List", "Rat"):
         bad(n, "Individual(...) of something that is not a vector")
     return pre, Tm("(Child.fresh {0})", [v]), "Child"
+
+
+def _uniform_draw(fn, n, env, want):
+    """`uniform(0, 1)` (random.uniform): the next member of the oracle list `eps` (state variable); the list running
+    dry is `none`.  That the draws lie in [0, 1] is a hypothesis of the theorems that need it, not of the tie."""
+    from py2lean import Tm, V, bad
+    import ast
+    if fn.imports.get("uniform") != "random.uniform" or len(n.args) != 2 or n.keywords \
+            or [ast.unparse(a) for a in n.args] != ["0", "1"]:
+        bad(n, "uniform called other than as random.uniform(0, 1)")
+    t = fn.tmp()
+    return [("bind", (t, "eps"), Tm("(List.head? eps).map (fun e => (e, List.tail eps))", fv=["eps"]))], V(t), "Num"
 
 
 def ast_unparse(n):
@@ -851,6 +873,415 @@ structure PBest (κ V : Type) where
         ],
     },
 }
+
+
+def _bench(cls, raises=False, dim=False, ordered=False, **extra):
+    """spec entry of a benchmark `evaluate(self, x)`: `x.vector` is the coordinate list xs over the carrier α of
+    `Artap.Num`; `self.dimension` (where the body reads it) is the parameter `dimension : Nat`; the result is the
+    returned list (one cost)"""
+    e = {"py": "%s.evaluate" % cls, "lean": "%s_evaluate" % cls, "num": True,
+         "header": "{α : Type} [Num α]" + (" [NumOrd α]" if ordered else ""),
+         "py_params": ["self", "x"], "mutable_params": ["x"],
+         "params": ([("dimension", "Nat")] if dim else []) + [("xs", L("Num"))],
+         "bind": dict({"x.vector": ("xs", L("Num"))}, **({"self.dimension": ("dimension", "Nat")} if dim else {})),
+         "ret": L("Num"), "raises": raises}
+    if ordered:
+        e["num_lt"] = "NumOrd.lt"
+    e.update(extra)
+    return e
+
+
+SPECS["Bench"] = {
+    "source": "artap/benchmark_functions.py",
+    "serves": ["C15"],
+    "imports": ["ArtapModel.Model.Bench"],
+    "open": ["Artap.Bench"],
+    "functions": [
+        _bench("Sphere"),
+        _bench("Booth", raises=True),
+        _bench("Rosenbrock", raises=True, dim=True),
+        _bench("Zakharov"),
+        _bench("Rastrigin", dim=True),
+        _bench("Griewank"),
+        _bench("AlpineFunction"),
+        _bench("Ackley", raises=True),
+        _bench("ModifiedEasom"),
+        _bench("EqualityConstr", dim=True, ordered=True),
+        _bench("Perm", dim=True),
+        _bench("XinSheYang"),
+        _bench("XinSheYang2", raises=True),
+        # the draws `uniform(0, 1)` are the members of the oracle list eps, one per call (running dry = none)
+        _bench("XinSheYang3", raises=True, params=[("eps", L("Num")), ("xs", L("Num"))],
+               ghost_state={"eps": L("Num")}, calls={"uniform": {"expr": _uniform_draw, "mutates": ["eps"]}}),
+        _bench("SixHump", raises=True),
+        _bench("Schwefel"),
+        _bench("Michaelwicz"),
+        _bench("Schubert", raises=True),
+        _bench("GramacyLee", raises=True),
+    ],
+}
+
+_ATOM_CALL = {"atom_nd": {"fn": "atom_nd", "args": ["Num", "Num", L("Num"), L("Num")], "ret": "Num", "raises": True}}
+
+SPECS["BenchRobust"] = {
+    "source": "artap/benchmark_robust.py",
+    "serves": ["C15"],
+    "imports": ["ArtapModel.Model.Bench"],
+    "open": ["Artap.Bench"],
+    "functions": [
+        _bench("Synthetic2D", raises=True),
+        _bench("Synthetic1D", raises=True),
+        {   # the module-level helper of the 5D / 10D families: width, multiplier, point, centre
+            "py": "atom_nd", "lean": "atom_nd", "num": True, "header": "{α : Type} [Num α]",
+            "py_params": ["width", "multiplier", "x", "z"],
+            "params": [("width", "Num"), ("multiplier", "Num"), ("x", L("Num")), ("z", L("Num"))],
+            "vars": {"width": "Num", "multiplier": "Num", "x": L("Num"), "z": L("Num")},
+            "ret": "Num", "raises": True,
+        },
+        _bench("Synthetic5D", raises=True, calls=_ATOM_CALL),
+        _bench("Synthetic10D", raises=True, calls=_ATOM_CALL),
+    ],
+}
+
+
+def _dtlz(cls):
+    """DTLZ families: `len(self.costs)` is the parameter m (number of objectives), `x.vector` the variables"""
+    return _bench(cls, raises=True, params=[("m", "Nat"), ("xs", L("Num"))],
+                  bind={"x.vector": ("xs", L("Num")), "len(self.costs)": ("m", "Nat")}, ret=L("Num"))
+
+
+SPECS["BenchMO"] = {
+    "source": "artap/benchmark_pareto.py",
+    "serves": ["C16"],
+    "imports": ["ArtapModel.Model.BenchMO"],
+    "functions": [
+        {   # `individual.vector` is the variable list xs
+            "py": "BiObjectiveTestProblem.evaluate", "lean": "BiObjectiveTestProblem_evaluate", "num": True,
+            "header": "{α : Type} [Num α]", "py_params": ["self", "individual"],
+            "params": [("xs", L("Num"))], "bind": {"individual.vector": ("xs", L("Num"))},
+            "ret": L("Num"), "raises": True,
+        },
+        _dtlz("DTLZI"), _dtlz("DTLZII"), _dtlz("DTLZIII"), _dtlz("DTLZIV"),
+        {   # ZDT1: the individual x is its variable list
+            "py": "ZDT1.eval_g", "lean": "ZDT1_eval_g", "num": True, "header": "{α : Type} [Num α]",
+            "py_params": ["self", "x"], "params": [("xs", L("Num"))], "bind": {"x.vector": ("xs", L("Num"))},
+            "ret": "Num", "raises": True,
+        },
+        {
+            "py": "ZDT1.eval_h", "lean": "ZDT1_eval_h", "num": True, "header": "{α : Type} [Num α]",
+            "py_params": ["self", "f", "g"], "params": [("f", "Num"), ("g", "Num")],
+            "vars": {"f": "Num", "g": "Num"}, "ret": "Num",
+        },
+        {   # the two callees are the functions generated above (same class)
+            "py": "ZDT1.evaluate", "lean": "ZDT1_evaluate", "num": True, "header": "{α : Type} [Num α]",
+            "py_params": ["self", "x"], "params": [("xs", L("Num"))],
+            "bind": {"x.vector": ("xs", L("Num")), "x": ("xs", "Vec")}, "lean_types": {"Vec": "(List α)"},
+            "calls": {"self.eval_g": {"fn": "ZDT1_eval_g", "args": ["Vec"], "ret": "Num", "raises": True},
+                      "self.eval_h": {"fn": "ZDT1_eval_h", "args": ["Num", "Num"], "ret": "Num"}},
+            "ret": L("Num"), "raises": True,
+        },
+    ],
+}
+
+_IND_BIND = {
+    "self.id": ("i.id", "Int"), "self.vector": ("i.vector", L("J")), "self.costs": ("i.costs", L("J")),
+    "self.costs_signed": ("i.costsSigned", "J"), "self.state": ("i.state", ("Option", "StateT")),
+    "self.population_id": ("i.populationId", "J"), "self.algorithm_id": ("i.algorithmId", "J"),
+    "self.custom": ("i.custom", "J"), "self.features": ("i.features", ("Dict", ("Str", "J"))),
+    "self.parents": ("i.parents", L("J")), "self.children": ("i.children", L("J")),
+}
+_J_COERCE = {("Int", "J"): "(J.int {0})", ("List J", "J"): "(J.arr {0})", ("String", "J"): "(J.str {0})",
+             ("List (String × J)", "J"): "(J.obj {0})"}
+
+SPECS["Store"] = {
+    "source": "artap/individual.py",
+    "serves": ["C10", "C11"],
+    "imports": ["ArtapModel.Model.Store"],
+    "open": ["Artap.Store"],
+    "prelude": """
+-- `state == cls.State.EMPTY`: enum members are compared by identity
+deriving instance DecidableEq for Artap.Store.State
+
+/-- `dictionary[key]` on a decoded JSON document: a dict that has the key; anything else raises (KeyError on a
+dict without the key, TypeError on a list / str / number / None with a str index) -/
+def jGet : J → String → Option J
+  | .obj d, k => dictGet d k
+  | _, _ => none
+
+/-- `isinstance(value, Iterable)` for the values that travel through the store (`J`): list / tuple / ndarray,
+str and dict are iterable; None, bool, int, float and an Individual object are not -/
+def jIsIterable : J → Bool
+  | .arr _ | .str _ | .obj _ => true
+  | _ => false
+
+/-- `isinstance(value, Individual)` -/
+def jIsInd : J → Bool
+  | .ind _ => true
+  | _ => false
+
+/-- what `for item in value` yields: the members of a list; the characters of a str, each a str of length one;
+the keys of a dict (strings); `none` = TypeError (not iterable) -/
+def jIter : J → Option (List J)
+  | .arr xs => some xs
+  | .str s => some (s.toList.map (fun c => J.str (String.singleton c)))
+  | .obj kvs => some (kvs.map (fun kv => J.str kv.1))
+  | _ => none
+
+/-- `value.id` of an Individual object; `none` = AttributeError -/
+def jIndId : J → Option Int
+  | .ind id => some id
+  | _ => none
+""",
+    "functions": [
+        {   # `state` is a member of Individual.State or anything else (none: e.g. the string that from_dict stores);
+            # the returned str / None is the JSON value
+            "py": "Individual.to_string", "lean": "Individual_to_string",
+            "py_params": ["cls", "state"], "params": [("state", ("Option", "StateT"))],
+            "vars": {"state": ("Option", "StateT")}, "carrier": ["StateT"], "lean_types": {"StateT": "State"},
+            "bind": {"cls.State.EMPTY": ("State.empty", "StateT"), "cls.State.IN_PROGRESS": ("State.inProgress", "StateT"),
+                     "cls.State.EVALUATED": ("State.evaluated", "StateT"), "cls.State.FAILED": ("State.failed", "StateT")},
+            "strings": True, "coerce": _J_COERCE, "ret": "J", "none_ret": "J.null",
+        },
+        {   # open recursion: `self._replace_individual_id(item)` is the parameter rec_ (closed below with the
+            # interpreter's recursion budget); `value` is a J; the returned list / int / value is a J
+            "py": "Individual._replace_individual_id", "lean": "Individual_replace_individual_id_body",
+            "knot": "Individual_replace_individual_id",
+            "py_params": ["self", "value"], "params": [("rec_", "J → Option J"), ("value", "J")],
+            "vars": {"value": "J"},
+            "bind": {"isinstance(value, Iterable)": ("(jIsIterable value)", "Bool"),
+                     "isinstance(value, Individual)": ("(jIsInd value)", "Bool")},
+            "iterables": {"J": ("?(jIter {0})", "J")},
+            "types": {"J": {".id": ("?(jIndId {0})", "Int")}},
+            "calls": {"self._replace_individual_id": {"fn": "rec_", "args": ["J"], "ret": "J", "raises": True}},
+            "coerce": _J_COERCE, "ret": "J", "raises": True,
+        },
+        {   # `self` is the snapshot i : Ind of the model (its attributes); the dicts are association lists with string
+            # keys (`strdict`); `self.features` is a Python dict, so its keys are distinct (hypothesis of the tie);
+            # `depth` is the recursion budget available to `_replace_individual_id`
+            "py": "Individual.to_dict", "lean": "Individual_to_dict",
+            "py_params": ["self"], "params": [("depth", "Nat"), ("i", "Ind")],
+            "bind": _IND_BIND, "strdict": "J", "strings": True, "coerce": _J_COERCE,
+            "calls": {"self._replace_individual_id": {"fn": "Individual_replace_individual_id depth", "args": ["J"],
+                                                      "ret": "J", "raises": True},
+                      "self.to_string": {"fn": "Individual_to_string", "args": [("Option", "StateT")], "ret": "J"}},
+            "lean_types": {"StateT": "State"},
+            "ret": "J", "raises": True,
+        },
+        {   # the fresh `Individual()` is the record v : View of the attributes that a read-mode view exposes (all nine
+            # are overwritten); `dictionary` is the decoded JSON document
+            "py": "Individual.from_dict", "lean": "Individual_from_dict",
+            "py_params": ["dictionary"], "params": [("v", "View"), ("dictionary", "JDoc")],
+            "vars": {"dictionary": "JDoc"}, "ghost_state": {"v": "View"}, "lean_types": {"JDoc": "J"},
+            "types": {"JDoc": dict(("[%r]" % k, ("?(jGet {0} \"%s\")" % k, "J")) for k in
+                                   ("id", "vector", "costs", "state", "costs_signed", "population_id", "algorithm_id",
+                                    "custom", "features"))},
+            "fields": {"individual.id": ("v", "id", "J"), "individual.vector": ("v", "vector", "J"),
+                       "individual.costs": ("v", "costs", "J"), "individual.state": ("v", "state", "J"),
+                       "individual.costs_signed": ("v", "costsSigned", "J"),
+                       "individual.population_id": ("v", "populationId", "J"),
+                       "individual.algorithm_id": ("v", "algorithmId", "J"),
+                       "individual.custom": ("v", "custom", "J"), "individual.features": ("v", "features", "J")},
+            "bind": {"individual": ("v", "View")},
+            "ignore": [("individual = Individual()", "the fresh object is the record v; every attribute that a view exposes is assigned below")],
+            "ret": "View", "raises": True,
+        },
+    ],
+}
+
+
+def _execute_upsert(fn, st, env, after):
+    """`c.execute(self.sql_individuals_upsert, [X.id, json.dumps(X.to_dict())])`: `X.to_dict()` is the function
+    generated from individual.py (Gen/Store.lean; it may raise), `json.dumps` is the model's `jsonRoundTrip`
+    (TypeError on an Individual object, otherwise the document that json.loads reads back - trusted, as in
+    Model/Store.lean), and the statement `INSERT .. ON CONFLICT(id) DO UPDATE` on the table is `upsert`."""
+    from py2lean import Let, Tm, V, bad
+    import ast
+    c = st.value
+    ok = len(c.args) == 2 and not c.keywords and ast.unparse(c.args[0]) == "self.sql_individuals_upsert" \
+        and isinstance(c.args[1], ast.List) and len(c.args[1].elts) == 2
+    if ok:
+        e0, e1 = c.args[1].elts
+        ok = isinstance(e0, ast.Attribute) and e0.attr == "id" and isinstance(e1, ast.Call) \
+            and ast.unparse(e1.func) == "json.dumps" and len(e1.args) == 1 and not e1.keywords \
+            and ast.unparse(e1.args[0]) == ast.unparse(e0.value) + ".to_dict()"
+    if not ok:
+        bad(st, "c.execute called other than as execute(self.sql_individuals_upsert, [X.id, json.dumps(X.to_dict())])")
+    pre, x, ty = fn.expr(e0.value, env)
+    if ty != "IndT":
+        bad(st, "the upserted object is not an individual")
+    t1, t2 = fn.tmp(), fn.tmp()
+    pre = pre + [("bind", t1, Tm("(Artap.Gen.Store.Individual_to_dict depth {0})", [x], fv=["depth"])),
+                 ("bind", t2, Tm("(jsonRoundTrip {0})", [V(t1)]))]
+    return fn.wrap(pre, Let("s", Tm("(upsert s {0}.id {1})", [x, V(t2)], fv=["s"]), after(fn.forget(env, ["s"]))), st, env)
+
+
+def _commit(fn, st, env, after):
+    """`conn.commit()`: the upserts executed since the last commit become durable: the committed table `durable`
+    becomes the working table s, and the ghost counter `commits` counts the call.  An exception before the commit is
+    `none`, which stands for the rollback (the table as it was)."""
+    from py2lean import Let, Tm, V, bad
+    if st.value.args or st.value.keywords:
+        bad(st, "conn.commit with arguments")
+    env2 = fn.forget(env, ["durable", "commits"])
+    return Let("durable", V("s"), Let("commits", Tm("(commits + 1)", fv=["commits"]), after(env2)))
+
+
+_SYNC = {
+    "strings": True, "ghost_state": {"s": "StoreT", "durable": "StoreT", "commits": "Nat"},
+    "lean_types": {"StoreT": "Store", "IndT": "Ind"},
+    "calls": {"c.execute": {"stmt": _execute_upsert, "mutates": ["s"]},
+              "conn.commit": {"stmt": _commit, "mutates": ["durable", "commits"]}},
+    "ignore": [("conn = self.conn()", "connection handling: SQLite is in the trusted base"),
+               ("c = conn.cursor()", "connection handling: SQLite is in the trusted base")],
+    "ret": "Unit", "raises": True, "none_ret": "()",
+    "result": ("({durable}, {commits})", ("Prod", ("StoreT", "Nat"))),
+}
+
+SPECS["StoreSync"] = {
+    "source": "artap/datastore.py",
+    "serves": ["C10", "C11"],
+    "imports": ["ArtapModel.Model.Store", "ArtapModel.Gen.Store"],
+    "open": ["Artap.Store"],
+    "functions": [
+        dict(_SYNC, **{   # `self.mode == "write" or self.mode == "rewrite"` is the parameter `writing`; s is the working table of the
+            # connection, `durable` the committed table (both the table at entry), `commits` the number of commits so far
+            "py": "SqliteDataStore.sync_individual", "lean": "SqliteDataStore_sync_individual",
+            "py_params": ["self", "individual"],
+            "params": [("depth", "Nat"), ("writing", "Bool"), ("s", "StoreT"), ("durable", "StoreT"), ("commits", "Nat"),
+                       ("individual", "IndT")],
+            "vars": {"individual": "IndT"},
+            "bind": {"self.mode == 'write' or self.mode == 'rewrite'": ("writing", "Bool")},
+            "try_dropped": {"sqlite3.OperationalError": "SQLite is in the trusted base (DESIGN.md section 4): the statement "
+                            "does not fail; the handler would retry the same call"},
+        }),
+        dict(_SYNC, **{
+            "py": "SqliteDataStore.sync_all", "lean": "SqliteDataStore_sync_all",
+            "py_params": ["self"],
+            "params": [("depth", "Nat"), ("writing", "Bool"), ("s", "StoreT"), ("durable", "StoreT"), ("commits", "Nat"),
+                       ("inds", L("IndT"))],
+            "bind": {"self.mode == 'write' or self.mode == 'rewrite'": ("writing", "Bool"),
+                     "self.problem.individuals": ("inds", L("IndT"))},
+        }),
+    ],
+}
+
+def _np_zeros(fn, n, env, want):
+    """`np.zeros((a, b))`: the a-by-b matrix of zeros (`NpMat`: number of columns and the rows)"""
+    from py2lean import Tm, bad
+    import ast
+    if len(n.args) != 1 or n.keywords or not isinstance(n.args[0], ast.Tuple) or len(n.args[0].elts) != 2:
+        bad(n, "np.zeros called other than with a pair (rows, columns)")
+    p1, a, ta = fn.expr(n.args[0].elts[0], env)
+    p2, b, tb = fn.expr(n.args[0].elts[1], env)
+    if ta not in ("Nat", "NpInt") or tb not in ("Nat", "NpInt"):
+        bad(n, "np.zeros with a shape that is not a pair of integers")
+    return p1 + p2, Tm("(NpMat.zeros {0} {1})", [a, b]), "NpMat"
+
+
+def _np_set_column(fn, tgt, value, op, st, env, after):
+    """`H[:, i] = rng` on a numpy matrix: `npSetCol` of the generated prelude (IndexError for a column that does not
+    exist, ValueError for a list whose length is neither the number of rows nor one)"""
+    from py2lean import Let, MatchOpt, Tm, V, bad
+    import ast
+    sl = tgt.slice
+    if op is not None or len(sl.elts) != 2 or not isinstance(sl.elts[0], ast.Slice) \
+            or sl.elts[0].lower is not None or sl.elts[0].upper is not None or sl.elts[0].step is not None \
+            or not isinstance(tgt.value, ast.Name):
+        bad(st, "matrix assignment other than `H[:, i] = list`")
+    h = tgt.value.id
+    if env.get(h) != "NpMat":
+        bad(st, "column assignment to something that is not a numpy matrix")
+    p1, v, tv = fn.expr(value, env, ("List", "Nat"))
+    if isinstance(tv, tuple) and tv[0] == "List" and tv[1] == "?":
+        fn.unresolved = True                      # element type found by the next typing pass
+        return after(env)
+    if tv != ("List", "Nat"):
+        bad(st, "column assigned from a value of type %s" % (tv,))
+    p2, i, ti = fn.expr(sl.elts[1], env, "Nat")
+    if ti != "Nat":
+        bad(st, "column index of type %s" % (ti,))
+    t = fn.tmp()
+    body = MatchOpt(Tm("(npSetCol {0} {1} {2})", [V(h), i, v]), t, Let(h, V(t), after(fn.forget(env, [h]))), fn.none(st))
+    return fn.wrap(p1 + p2, body, st, env)
+
+
+SPECS["Doe"] = {
+    "source": "artap/doe.py",
+    "serves": ["C13"],
+    "imports": ["ArtapModel.Model.Doe"],
+    "prelude": """
+/-- a two-dimensional numpy array of level indices (stored as doubles by numpy, all integral): the number of columns
+and the rows -/
+structure NpMat where
+  ncols : Nat
+  rows : List (List Nat)
+
+/-- `np.zeros((a, b))` -/
+def NpMat.zeros (a b : Nat) : NpMat := ⟨b, List.replicate a (List.replicate b 0)⟩
+
+/-- `np.prod(levels)` of a list of Python integers, as an integer; `none` = the list is empty: numpy answers the
+*float* 1.0, which the next statement of `fullfact` (`np.zeros((1.0, 0))`) rejects with a TypeError before anything
+else happens - the translation raises one statement earlier.  (Overflow of int64 is not represented.) -/
+def npProd : List Nat → Option Nat
+  | [] => none
+  | l :: ls => some (Artap.Doe.prod (l :: ls))
+
+/-- `H[:, i] = rng` (numpy): column `i` of every row is taken from the list `rng`.  IndexError when there is no
+column `i`; the list must have one entry per row, a list of length one is broadcast to every row, anything else is a
+ValueError. -/
+def npSetCol (H : NpMat) (i : Nat) (rng : List Nat) : Option NpMat :=
+  if i < H.ncols then
+    if rng.length = H.rows.length then some ⟨H.ncols, List.zipWith (fun row v => row.set i v) H.rows rng⟩
+    else match rng with
+      | [v] => some ⟨H.ncols, H.rows.map (fun row => row.set i v)⟩
+      | _ => none
+  else none
+""",
+    "functions": [
+        {   # `np.prod(levels)` is a numpy integer (type NpInt): `//` on it is numpy's floor division (x // 0 = 0 with
+            # a RuntimeWarning, no exception) and it may repeat a list (`lvl * range_repeat`: __index__); H is an NpMat
+            "py": "fullfact", "lean": "fullfact",
+            "py_params": ["levels"], "params": [("levels", L("Nat"))], "vars": {"levels": L("Nat")},
+            "numpy_ints": True, "lean_types": {"NpInt": "Nat"},
+            "bind": {"np.prod(levels)": ("(npProd levels)", "NpInt", "partial")},
+            "calls": {"np.zeros": {"expr": _np_zeros}},
+            "subscript_assign": _np_set_column,
+            "coerce": {("NpMat", "List (List Nat)"): "{0}.rows"},
+            "ret": L(L("Nat")), "raises": True,
+        },
+        {   # x is the design matrix as rows of integers (the level indices that fullfact / pbdesign / bbdesign produce,
+            # `int(col[index])` is that integer), factor_lists the level values of each factor (any type)
+            "py": "construct_df", "lean": "construct_df", "header": "{α : Type}",
+            "py_params": ["x", "factor_lists"],
+            "params": [("x", L(L("Int"))), ("factor_lists", L(L("α")))],
+            "vars": {"x": L(L("Int")), "factor_lists": L(L("α"))},
+            "int_is_int": True, "ret": L(L("α")), "raises": True,
+        },
+        {   # plain integer loops of the generalized subset design
+            "py": "_make_partitions", "lean": "make_partitions",
+            "py_params": ["factor_levels", "num_partitions"],
+            "params": [("factor_levels", L("Nat")), ("num_partitions", "Nat")],
+            "vars": {"factor_levels": L("Nat"), "num_partitions": "Nat"},
+            "ret": L(L(L("Int"))),
+        },
+        {   # `factor_level_ranges` is a dict factor name -> list of level values: an association list with string keys;
+            # the two callees are the functions generated in this module
+            "py": "build_full_fact", "lean": "build_full_fact", "header": "{α : Type}",
+            "py_params": ["factor_level_ranges"],
+            "params": [("factor_level_ranges", ("Dict", ("Str", L("α"))))],
+            "vars": {"factor_level_ranges": ("Dict", ("Str", L("α")))},
+            "strdict": "α", "strings": True,
+            "calls": {"fullfact": {"fn": "fullfact", "args": [L("Nat")], "ret": L(L("Nat")), "raises": True},
+                      "construct_df": {"fn": "construct_df", "args": [L(L("Int")), L(L("α"))], "ret": L(L("α")),
+                                       "raises": True}},
+            "coerce": {("List (List Nat)", "List (List Int)"): "(Artap.Doe.toIntRows {0})"},
+            "ret": L(L("α")), "raises": True,
+        },
+    ],
+}
+
+SPECS["Store"] = SPECS.pop("Store")      # listed after StoreSync, which imports its generated module (a run against another
+                                         # checkout puts the generated files back in listing order)
 
 # listing order: the modules of the first round, then the loop-heavy functions in the order they were added
 SPECS = {k: SPECS[k] for k in ["Dominance", "Selection", "Equality", "Archive", "Variation", "Runs",
